@@ -62,7 +62,17 @@ def main(argv=None):
     nviol = 0
     unconfirmed = 0
     tried = 0
+    # confirmation order: one signature of each clause in turn (a clause = the text before the first colon), so
+    # that a reproducible clause is reached even when many unreproducible observations sort in front of it
+    groups = {}
     for sig, f in new:
+        groups.setdefault(sig.split(":")[0], []).append((sig, f))
+    ordered = []
+    while any(groups.values()):
+        for g in sorted(groups):
+            if groups[g]:
+                ordered.append(groups[g].pop(0))
+    for sig, f in ordered:
         if nviol >= 12 or tried >= 60:
             break
         tried += 1
